@@ -39,7 +39,8 @@ type c17Pkg struct {
 	refs    map[*types.Func]int           // identifier uses of a function object (calls and values)
 	inits   map[types.Object]ast.Expr     // memo of singleInit
 	noIni   map[types.Object]bool
-	polyMem map[*c17Fn]int // memo of polygonOnly
+	polyMem map[*c17Fn]int  // memo of polygonOnly
+	busy    map[*c17Fn]bool // functions whose result is being evaluated (recursion cut)
 }
 
 type c17Fn struct {
@@ -439,6 +440,7 @@ type c17Val struct {
 	set        bool
 	proxy      map[types.Object]int
 	nodeMember bool
+	memberType string // when not "": every `<osm.Member>.Type` has this value ("node", "way", "relation", …)
 }
 
 func c17TriOf(b bool) tri {
@@ -473,11 +475,17 @@ func (a *c17Pkg) evalAtom(fn *c17Fn, e ast.Expr, v c17Val, depth int) tri {
 			if init := a.singleInit(fn, o); init != nil {
 				return a.eval(fn, init, v, depth+1)
 			}
+			if h, idx, n := a.tupleInit(fn, o); h != nil {
+				return a.evalResult(h, idx, n, v, depth+1)
+			}
 		}
 	case *ast.CallExpr:
 		if depth < 4 {
 			if _, ret := a.predicate(x); ret != nil {
 				return a.eval(fn, ret, v, depth+1)
+			}
+			if h := a.fns[c17Callee(a.info, x)]; h != nil {
+				return a.evalResult(h, 0, 1, v, depth+1)
 			}
 		}
 	case *ast.BinaryExpr:
@@ -492,16 +500,26 @@ func (a *c17Pkg) evalAtom(fn *c17Fn, e ast.Expr, v c17Val, depth int) tri {
 				}
 			}
 		}
-		if v.nodeMember && (x.Op == token.EQL || x.Op == token.NEQ) {
+		if (x.Op == token.EQL || x.Op == token.NEQ) && depth < 4 {
+			// `x == nil` / `x != nil` where x comes from a helper whose result is nil on some paths only
+			for _, pair := range [][2]ast.Expr{{x.X, x.Y}, {x.Y, x.X}} {
+				if tv, ok := a.info.Types[ast.Unparen(pair[1])]; ok && tv.IsNil() {
+					if t := a.nilOf(fn, pair[0], v, depth+1); t != triU {
+						return c17TriOf((t == triT) == (x.Op == token.EQL))
+					}
+				}
+			}
+		}
+		want := v.memberType
+		if v.nodeMember {
+			want, _ = a.typeNodeValue()
+		}
+		if want != "" && (x.Op == token.EQL || x.Op == token.NEQ) {
 			for _, pair := range [][2]ast.Expr{{x.X, x.Y}, {x.Y, x.X}} {
 				if !a.isMemberType(pair[0]) {
 					continue
 				}
 				s, ok := constString(a.info, ast.Unparen(pair[1]))
-				if !ok {
-					continue
-				}
-				want, ok := a.typeNodeValue()
 				if !ok {
 					continue
 				}
